@@ -830,7 +830,11 @@ const ruleL9 = "L9-no-wait-on-a-channel-that-is-never-created"
 func (c *Ctx) noWaitOnNilChannels() {
 	c.R.Rule(ruleL9, "no blocking select, receive or send of the library waits on a channel field that is never assigned a created channel anywhere in the library (a nil channel: the case can never fire, so it is no way out).")
 	created := map[string]bool{}
-	for _, fn := range globalStoreFuncs {
+	var progFuncs []*ssa.Function
+	if len(c.P.Funcs) > 0 {
+		progFuncs = storeFuncsOf(c.P.Funcs[0].Prog)
+	}
+	for _, fn := range progFuncs {
 		for _, b := range fn.Blocks {
 			for _, in := range b.Instrs {
 				st, ok := in.(*ssa.Store)
